@@ -58,49 +58,76 @@ Section Quiet.
       destruct (IH (snd (V x s)) Hc1) as (Hok2 & Hw2 & Hc2). repeat split; [exact Hok2 | rewrite Hw2; exact Hw | exact Hc2].
   Qed.
 
-  Lemma compound_quiet c n v :
-    CF n -> visible c n -> (is_nameable v = false -> quiet c v) ->
-    forall s, v_ctx s = c ->
-      fst (compound_body n v Load (V v) s) = Ok tt
-      /\ v_warn (snd (compound_body n v Load (V v) s)) = v_warn s
-      /\ v_ctx (snd (compound_body n v Load (V v) s)) = c.
+  (* an action that ends normally, adds no warning and leaves the scope chain alone *)
+  Definition quiet_act (c : ctx) (m : M unit) : Prop :=
+    forall s, v_ctx s = c -> fst (m s) = Ok tt /\ v_warn (snd (m s)) = v_warn s /\ v_ctx (snd (m s)) = c.
+
+  Lemma quiet_bind c m1 m2 : quiet_act c m1 -> quiet_act c m2 -> quiet_act c (m1 ;;; m2).
   Proof.
-    intros Hcf Hv Hq s Hc. unfold compound_body.
+    intros A1 A2 s Hc. destruct (A1 s Hc) as (H1 & H2 & H3). rewrite (bind_ok _ _ s tt H1).
+    destruct (A2 _ H3) as (K1 & K2 & K3). repeat split; [exact K1 | rewrite K2; exact H2 | exact K3].
+  Qed.
+  Lemma quiet_ret c : quiet_act c (ret tt).
+  Proof. intros s Hc. repeat split; try reflexivity; exact Hc. Qed.
+
+  Lemma compound_quiet c n v m2 :
+    CF n -> visible c n -> (is_nameable v = false -> quiet c v) -> quiet_act c m2 ->
+    quiet_act c (compound_body n v Load (V v) m2).
+  Proof.
+    intros Hcf Hv Hq H2 s Hc. unfold compound_body.
     assert (Hg := gv_quiet c n s Hcf Hv Hc).
     assert (Hok : fst (get_and_verify_name n Load s) = Ok (spell_base n, spell n)) by (rewrite Hg; reflexivity).
     rewrite (bind_ok _ _ s _ Hok). rewrite Hg. cbn [snd fst].
-    destruct (is_nameable v) eqn:En.
-    - unfold FuncAn.bind, ret, update_results, add_get. cbn [fst snd v_warn v_ctx]. repeat split; try reflexivity; exact Hc.
-    - destruct (Hq eq_refl s Hc) as (Hok2 & Hw2 & Hc2). rewrite (bind_ok _ _ s tt Hok2).
-      unfold update_results, add_get. cbn [fst snd v_warn v_ctx]. repeat split; try reflexivity; [exact Hw2 | exact Hc2].
+    assert (A1 : quiet_act c (if is_nameable v then ret tt else V v)).
+    { destruct (is_nameable v); [apply quiet_ret | exact (Hq eq_refl)]. }
+    destruct (quiet_bind c _ _ A1 H2 s Hc) as (H1 & Hw & Hx).
+    unfold bind in *. destruct ((if is_nameable v then ret tt else V v) s) as [o1 t1] eqn:E1.
+    destruct o1; cbn [fst snd] in *; try discriminate H1.
+    destruct (m2 t1) as [o2 t2] eqn:E2. cbn [fst snd] in *. destruct o2; try discriminate H1.
+    cbn [update_results add_get fst snd v_warn v_ctx]. repeat split; [exact Hw | exact Hx].
   Qed.
 
+  Definition quiet_slices (c : ctx) (m : node) : Prop := quiet_act c (spine_with V m).
+
   (* NO SPURIOUS WARNING, any nesting depth *)
-  Theorem call_free_loads_are_quiet : forall c n, CF n -> visible c n -> quiet c n.
+  Theorem call_free_loads_are_quiet_and_slices : forall c n, CF n -> visible c n -> quiet c n /\ quiet_slices c n.
   Proof.
     intros c. induction n using node_children_ind. rename H into IH. intros Hcf Hv.
     pose proof (all_here _ _ Hcf) as Hl.
-    assert (Hkids : Forall (quiet c) (children n)).
+    assert (Hkids2 : Forall (fun x => quiet c x /\ quiet_slices c x) (children n)).
     { rewrite Forall_forall in IH |- *. intros x Hx. apply IH; [exact Hx | apply (cf_child _ _ Hcf Hx) | apply (visible_child _ _ _ Hv Hx)]. }
+    assert (Hkids : Forall (quiet c) (children n)).
+    { rewrite Forall_forall in Hkids2 |- *. intros x Hx. exact (proj1 (Hkids2 x Hx)). }
+    assert (Htriv : forall m, spine_with V m = ret tt -> quiet_slices c m).
+    { intros m E. unfold quiet_slices. rewrite E. apply quiet_ret. }
     destruct n; simpl in Hl; try contradiction.
-    - destruct c0; try contradiction. intros s Hc. rewrite visit_name.
+    - destruct c0; try contradiction. split; [|apply Htriv; reflexivity]. intros s Hc. rewrite visit_name.
       assert (Hg := gv_quiet c _ s Hcf Hv Hc).
       assert (Hok : fst (get_and_verify_name (EName id Load p) Load s) = Ok (spell_base (EName id Load p), spell (EName id Load p))) by (rewrite Hg; reflexivity).
       rewrite (bind_ok _ _ s _ Hok). rewrite Hg. cbn [snd fst]. unfold update_results, add_get. cbn [fst snd v_warn v_ctx].
       repeat split; try reflexivity; exact Hc.
-    - destruct c0; try contradiction. intros s Hc. rewrite visit_attr.
-      simpl in Hkids. pose proof (Forall_inv Hkids) as Hq. exact (compound_quiet c _ n Hcf Hv (fun _ => Hq) s Hc).
-    - destruct c0; try contradiction. intros s Hc. rewrite visit_sub.
-      simpl in Hkids. pose proof (Forall_inv Hkids) as Hq. exact (compound_quiet c _ n1 Hcf Hv (fun _ => Hq) s Hc).
-    - destruct c0; try contradiction. intros s Hc. rewrite visit_star.
-      simpl in Hkids. pose proof (Forall_inv Hkids) as Hq. exact (compound_quiet c _ n Hcf Hv (fun _ => Hq) s Hc).
-    - intros s Hc. rewrite visit_const. unfold ret. cbn [fst snd]. repeat split; try reflexivity; exact Hc.
-    - intros s Hc. rewrite visit_seq. simpl in Hkids. exact (VL_quiet c es Hkids s Hc).
-    - intros s Hc. rewrite visit_dict. simpl in Hkids. apply Forall_app in Hkids. destruct Hkids as [Hks Hvs].
+    - destruct c0; try contradiction. simpl in Hkids2. pose proof (Forall_inv Hkids2) as [Hq Hs]. split.
+      + intros s Hc. rewrite visit_attr. exact (compound_quiet c _ n _ Hcf Hv (fun _ => Hq) Hs s Hc).
+      + unfold quiet_slices. cbn [spine_with]. exact Hs.
+    - destruct c0; try contradiction. simpl in Hkids2. pose proof (Forall_inv Hkids2) as [Hq Hs].
+      pose proof (Forall_inv (Forall_inv_tail Hkids2)) as [Hqsl _].
+      assert (Hs2 : quiet_act c (V n2 ;;; spine_with V n1)) by (apply quiet_bind; [exact Hqsl | exact Hs]).
+      split.
+      + intros s Hc. rewrite visit_sub. exact (compound_quiet c _ n1 _ Hcf Hv (fun _ => Hq) Hs2 s Hc).
+      + unfold quiet_slices. cbn [spine_with]. exact Hs2.
+    - destruct c0; try contradiction. simpl in Hkids2. pose proof (Forall_inv Hkids2) as [Hq Hs]. split.
+      + intros s Hc. rewrite visit_star. exact (compound_quiet c _ n _ Hcf Hv (fun _ => Hq) Hs s Hc).
+      + unfold quiet_slices. cbn [spine_with]. exact Hs.
+    - split; [|apply Htriv; reflexivity]. intros s Hc. rewrite visit_const. unfold ret. cbn [fst snd]. repeat split; try reflexivity; exact Hc.
+    - split; [|apply Htriv; reflexivity]. intros s Hc. rewrite visit_seq. simpl in Hkids. exact (VL_quiet c es Hkids s Hc).
+    - split; [|apply Htriv; reflexivity]. intros s Hc. rewrite visit_dict. simpl in Hkids. apply Forall_app in Hkids. destruct Hkids as [Hks Hvs].
       destruct (VL_quiet c ks Hks s Hc) as (H1 & H2 & H3). rewrite (bind_ok _ _ s tt H1).
       destruct (VL_quiet c vs Hvs _ H3) as (H4 & H5 & H6). repeat split; [exact H4 | rewrite H5; exact H2 | exact H6].
-    - destruct binds; try contradiction. intros s Hc. rewrite visit_other. simpl in Hkids. exact (VL_quiet c _ Hkids s Hc).
+    - destruct binds; try contradiction. split; [|apply Htriv; reflexivity]. intros s Hc. rewrite visit_other. simpl in Hkids. exact (VL_quiet c _ Hkids s Hc).
   Qed.
+
+  Theorem call_free_loads_are_quiet : forall c n, CF n -> visible c n -> quiet c n.
+  Proof. intros c n H1 H2. exact (proj1 (call_free_loads_are_quiet_and_slices c n H1 H2)). Qed.
 
   (* and the converse at the root: a bare variable that is not visible IS warned about, once, at its position *)
   Theorem unbound_variable_is_warned_about c id p s :
